@@ -18,7 +18,7 @@ from .. import cases as casemod
 from .. import tlc
 from ..replay import spec_value
 
-CONSTS = {"MCMode": "off", "OptNames": "{}", "MBLayouts": "{}", "MBRecs": "{}", "IOReqs": "{}", "IOShape": "{}", "NNames": "{}", "NDescs": "{}", "NCfgs": "{}", "RNodes": "{}", "RMode": "off", "XModules": "{}", "XMode": "off", "FRank": 3, "FDepth": 2, "FMutant": "none"}
+CONSTS = {"MCMode": "off", "OptNames": "{}", "MBLayouts": "{}", "MBRecs": "{}", "IOReqs": "{}", "IOShape": "{}", "NNames": "{}", "NDescs": "{}", "NCfgs": "{}", "RNodes": "{}", "RMode": "off", "XModules": "{}", "XMode": "off", "FRank": 3, "FDepth": 2, "FMutant": "none", "BNMax": 40, "BMutant": "none"}
 
 
 def run_store(case):
